@@ -59,23 +59,48 @@ func runC15_1(c *core.Ctx) {
 			}
 			return flow.FieldOf(f.Info, e) == loops
 		}
-		isElement := func(e ast.Expr) bool {
+		var isElement func(e ast.Expr) bool
+		seen := map[types.Object]bool{}
+		isElement = func(e ast.Expr) bool {
 			e = ast.Unparen(e)
 			if ie, ok := e.(*ast.IndexExpr); ok {
 				return isLoops(ie.X)
 			}
-			// a range variable over eventLoops
-			if o, ok := flow.ObjOf(f.Info, e).(*types.Var); ok {
-				found := false
-				ast.Inspect(f.Decl.Body, func(n ast.Node) bool {
-					if rs, ok := n.(*ast.RangeStmt); ok && rs.Value != nil && flow.ObjOf(f.Info, rs.Value) == types.Object(o) && isLoops(rs.X) {
-						found = true
-					}
-					return true
-				})
-				return found
+			o, ok := flow.ObjOf(f.Info, e).(*types.Var)
+			if !ok || o.IsField() {
+				return false
 			}
-			return false
+			// a range variable over eventLoops
+			found := false
+			ast.Inspect(f.Decl.Body, func(n ast.Node) bool {
+				if rs, ok := n.(*ast.RangeStmt); ok && rs.Value != nil && flow.ObjOf(f.Info, rs.Value) == types.Object(o) && isLoops(rs.X) {
+					found = true
+				}
+				return true
+			})
+			if found {
+				return true
+			}
+			// a local variable that only ever receives elements (el := lb.eventLoops[i]; el = v)
+			if seen[o] {
+				return true // already being judged: a cycle of element-only variables
+			}
+			seen[o] = true
+			n, all := 0, true
+			ast.Inspect(f.Decl.Body, func(x ast.Node) bool {
+				if as, ok := x.(*ast.AssignStmt); ok && len(as.Lhs) == len(as.Rhs) {
+					for k, l := range as.Lhs {
+						if flow.ObjOf(f.Info, l) == types.Object(o) {
+							n++
+							if !isElement(as.Rhs[k]) {
+								all = false
+							}
+						}
+					}
+				}
+				return true
+			})
+			return n > 0 && all
 		}
 		// named result: every assignment to it must be an element; else return expressions
 		var resObj types.Object
@@ -461,7 +486,26 @@ func runC15_5(c *core.Ctx) {
 		resObj = f.Info.Defs[f.Decl.Type.Results.List[0].Names[0]]
 	}
 	if resObj == nil {
-		c.Undecided(f.Name, "result variable", f.Decl.Pos(), "least-connections next() has no named result; idiom not recognised")
+		// no named result: the local variable that every return hands back
+		ast.Inspect(f.Decl.Body, func(n ast.Node) bool {
+			if _, ok := n.(*ast.FuncLit); ok {
+				return false
+			}
+			if r, ok := n.(*ast.ReturnStmt); ok && len(r.Results) == 1 {
+				if o, ok := flow.ObjOf(f.Info, r.Results[0]).(*types.Var); ok && !o.IsField() && (resObj == nil || resObj == types.Object(o)) {
+					resObj = o
+				} else {
+					resObj = types.Universe.Lookup("nil") // returns disagree: not one candidate variable
+				}
+			}
+			return true
+		})
+		if _, isVar := resObj.(*types.Var); !isVar {
+			resObj = nil
+		}
+	}
+	if resObj == nil {
+		c.Undecided(f.Name, "result variable", f.Decl.Pos(), "least-connections next() neither has a named result nor returns one local variable; idiom not recognised")
 		return
 	}
 	// initial: el = eventLoops[0]; minN := el.countConn()
@@ -542,9 +586,14 @@ func runC15_5(c *core.Ctx) {
 	p.Edge = func(e *flow.Edge, in uint64) uint64 {
 		if e.Cond != nil && e.Tag == nil {
 			if x, y, op, ok := flow.Cmp(e.Cond); ok {
-				lt := (op == token.LSS && isCountOfV(x) && flow.ObjOf(f.Info, y) == minObj) || (op == token.GTR && isCountOfV(y) && flow.ObjOf(f.Info, x) == minObj)
-				if lt && e.Sense {
-					in |= fLess
+				// count < minimum, in any spelling: `c < m` / `m > c` taken, `c >= m` / `m <= c` not taken
+				if isCountOfV(y) && flow.ObjOf(f.Info, x) == minObj {
+					x, y, op = y, x, swapCmp(op)
+				}
+				if isCountOfV(x) && flow.ObjOf(f.Info, y) == minObj {
+					if (op == token.LSS && e.Sense) || (op == token.GEQ && !e.Sense) {
+						in |= fLess
+					}
 				}
 			}
 		}
